@@ -195,6 +195,11 @@ def build_array(spec):
     for s in sectors:
         shape = tuple(ix.chargemap[c] for ix, c in zip(indices, s))
         blocks[s] = fill_block(spec.get("fill_seed", 0), s, shape, dtype)
+    if spec.get("mixed_block_dtypes") and "complex" in dtype and len(blocks) > 1:
+        # an array as produced by  real_array + complex_array  when the real one alone stores the first sector:
+        # the first stored block is real, the others complex
+        first = next(iter(blocks))
+        blocks[first] = np.ascontiguousarray(blocks[first].real)
     kw = {}
     if fermionic:
         op = spec.get("oddpos", None)
